@@ -309,7 +309,7 @@ func TestMD4ReadInterleaveExhaustive(t *testing.T) {
 
 type largeCase struct {
 	Len   int64 `json:"len"`
-	Chunk int   `json:"chunk"` // 0: the whole message in one call (md4.Sum and New/Write/Sum/HexSum)
+	Chunk int   `json:"chunk"` // 0: the whole message in one call (md4.Sum and New/Write/Sum/HexSum); -1: see checkLargeSingle
 }
 
 func largeFill(b []byte, at int64) {
@@ -319,7 +319,32 @@ func largeFill(b []byte, at int64) {
 	}
 }
 
+// checkLargeSingle: three bytes are written first (so that the big call meets a partly filled block), then
+// all the rest in a single Write; the model is fed in 1 MiB pieces.
+func checkLargeSingle(c largeCase) []vf.Finding {
+	m := make([]byte, c.Len)
+	largeFill(m, 0)
+	head := min(int64(3), c.Len)
+	h := md4.New()
+	h.Write(m[:head])
+	if n, err := h.Write(m[head:]); int64(n) != c.Len-head || err != nil {
+		return []vf.Finding{vf.F("md4.Write", "short-write", "single write of %d bytes: n=%d err=%v", c.Len-head, n, err)}
+	}
+	ref := xmd4.New()
+	for at := int64(0); at < c.Len; at += 1 << 20 {
+		ref.Write(m[at:min(at+1<<20, c.Len)])
+	}
+	want := ref.Sum(nil)
+	if got := h.Sum(); !bytes.Equal(got[:], want) {
+		return []vf.Finding{vf.F("md4.Write", "chunking-changes-digest", "len %d in writes of %d and %d bytes: got %x want %x", c.Len, head, c.Len-head, got, want)}
+	}
+	return nil
+}
+
 func checkLarge(c largeCase) []vf.Finding {
+	if c.Chunk < 0 {
+		return checkLargeSingle(c)
+	}
 	if c.Chunk <= 0 {
 		m := make([]byte, c.Len)
 		largeFill(m, 0)
@@ -353,7 +378,7 @@ func TestMD4Large(t *testing.T) {
 	s := vf.Begin(t, P, "md4-large")
 	s.SetExhaustive()
 	maxPow := vf.Size(20, 24)
-	s.Note("lengths 2^k-1, 2^k, 2^k+1 for k = 13..%d (8 KiB .. %d MiB), each one-shot and streamed in writes of 61, 64, 4095 and len/2+1 bytes; thorough: also 2^29 and 2^32 bits' worth of bytes (+-) streamed", maxPow, (1<<maxPow)>>20)
+	s.Note("lengths 2^k-1, 2^k, 2^k+1 for k = 13..%d (8 KiB .. %d MiB), each one-shot and streamed in writes of 61, 64, 4095 and len/2+1 bytes; thorough: also 2^29 and 2^32 bits' worth of bytes (+-) streamed, and 2^29 bytes in a single Write", maxPow, (1<<maxPow)>>20)
 	vf.Enum(s, func(yield func(largeCase)) {
 		for k := 13; k <= maxPow; k++ {
 			for d := int64(-1); d <= 1; d++ {
@@ -369,6 +394,10 @@ func TestMD4Large(t *testing.T) {
 			for _, n := range []int64{1<<26 + 3, 1<<29 - 1, 1 << 29, 1<<29 + 65} {
 				yield(largeCase{n, 1<<20 + 3})
 			}
+			// 2^32 bits in ONE Write call (a per-call bit count narrower than 64 bits wraps to 0), and one call of
+			// 2^29+64 bytes; each is preceded by a 3-byte write, so the big call meets a partly filled block
+			yield(largeCase{1<<29 + 3, -1})
+			yield(largeCase{1<<29 + 67, -1})
 		}
 	}, checkLarge, nil)
 }
@@ -540,7 +569,8 @@ func genLMPassword(t *rapid.T) string {
 	}
 	b := make([]byte, n)
 	for i := range b {
-		b[i] = byte(rapid.IntRange(1, 0x7f).Draw(t, "ch"))
+		// every 7-bit value: NUL and the other control characters are characters of the password like any other
+		b[i] = byte(rapid.IntRange(0, 0x7f).Draw(t, "ch"))
 	}
 	return string(b)
 }
@@ -548,13 +578,38 @@ func genLMPassword(t *rapid.T) string {
 func checkLM(c pwCase) []vf.Finding {
 	var fs []vf.Finding
 	want := refcrypto.LM(c.Password)
-	if got := lm.LMHash(c.Password); !bytes.Equal(got, want) {
+	got := lm.LMHash(c.Password)
+	if !bytes.Equal(got, want) {
 		fs = append(fs, vf.F("lm.LMHash", "differs-from-ms-nlmp", "pw %q: got %x want %x", c.Password, got, want))
 	}
 	if got := lm.LMHashToHex(c.Password); got != hex.EncodeToString(want) {
 		fs = append(fs, vf.F("lm.LMHashToHex", "hex-form-differs", "pw %q: got %s want %x", c.Password, got, want))
 	}
+	if len(fs) > 0 {
+		return fs
+	}
+	// the slice that was returned is the caller's: hashing another password does not change it
+	other := otherPassword(c.Password)
+	if o, w := lm.LMHash(other), refcrypto.LM(other); !bytes.Equal(o, w) {
+		fs = append(fs, vf.F("lm.LMHash", "differs-from-ms-nlmp", "pw %q (right after %q): got %x want %x", other, c.Password, o, w))
+	}
+	if !bytes.Equal(got, want) {
+		fs = append(fs, vf.F("lm.LMHash", "returned-hash-changed-by-later-call", "the slice returned for %q was %x and is %x after LMHash(%q)", c.Password, want, got, other))
+	}
 	return fs
+}
+
+// otherPassword is a 14-digit password that differs from pw at every position (digits have no case, so both
+// LM halves differ).
+func otherPassword(pw string) string {
+	b := make([]byte, 14)
+	for i := range b {
+		b[i] = '0' + byte(i%10)
+		if i < len(pw) && pw[i] == b[i] {
+			b[i] = '0' + byte((i+1)%10)
+		}
+	}
+	return string(b)
 }
 
 func TestLM(t *testing.T) {
@@ -563,13 +618,13 @@ func TestLM(t *testing.T) {
 		func(c pwCase) bool { return len(c.Password) > 7 || strings.ToUpper(c.Password) != c.Password })
 }
 
-// every byte value 1..127 at every one of the 14 positions (parity / shift logic)
+// every byte value 0..127 at every one of the 14 positions (parity / shift logic; a NUL inside the password)
 func TestLMPositionsExhaustive(t *testing.T) {
 	s := vf.Begin(t, P, "lm-positions-exhaustive")
 	s.SetExhaustive()
 	vf.Enum(s, func(yield func(pwCase)) {
 		for pos := 0; pos < 14; pos++ {
-			for v := 1; v < 128; v++ {
+			for v := 0; v < 128; v++ {
 				b := []byte("0123456789abcd")
 				b[pos] = byte(v)
 				yield(pwCase{Password: string(b)})
@@ -579,6 +634,78 @@ func TestLMPositionsExhaustive(t *testing.T) {
 			yield(pwCase{Password: strings.Repeat("Zy", 10)[:n]})
 		}
 	}, checkLM, nil)
+}
+
+// ---- results-kept ---------------------------------------------------------------
+//
+// The primitives that hand back a slice (lm.LMHash, utf16.EncodeUTF16LE; the MD4, NT and DCC digests are
+// arrays and the other forms strings, which cannot change after the fact) are called for several inputs in a
+// row. Every returned slice is kept as it is, not copied, and compared with its reference value only after
+// all calls have been made: a result is a value of its own, not a view of a buffer the next call reuses.
+
+type keptCall struct {
+	Fn string `json:"fn"` // lm, lmhex, utf16
+	In string `json:"in"`
+}
+type keptCase struct {
+	Calls []keptCall `json:"calls"`
+}
+
+func checkKept(c keptCase) []vf.Finding {
+	type kept struct {
+		at        int
+		got, want []byte
+	}
+	var ks []kept
+	var fs []vf.Finding
+	for i, k := range c.Calls {
+		switch k.Fn {
+		case "lm":
+			ks = append(ks, kept{i, lm.LMHash(k.In), refcrypto.LM(k.In)})
+		case "lmhex":
+			if got, want := lm.LMHashToHex(k.In), hex.EncodeToString(refcrypto.LM(k.In)); got != want {
+				fs = append(fs, vf.F("lm.LMHashToHex", "hex-form-differs", "call %d, pw %q: got %s want %s", i, k.In, got, want))
+			}
+		case "utf16":
+			ks = append(ks, kept{i, libutf16.EncodeUTF16LE(k.In), refcrypto.UTF16LE(k.In)})
+		default:
+			return []vf.Finding{vf.F("harness", "bad-case", "function %q", k.Fn)}
+		}
+	}
+	for _, k := range ks {
+		if !bytes.Equal(k.got, k.want) {
+			subj := map[string]string{"lm": "lm.LMHash", "utf16": "utf16.EncodeUTF16LE"}[c.Calls[k.at].Fn]
+			fs = append(fs, vf.F(subj, "returned-slice-wrong-after-later-calls", "call %d of %d (%s %q): the kept result is %x, want %x", k.at, len(c.Calls), c.Calls[k.at].Fn, c.Calls[k.at].In, k.got, k.want))
+		}
+	}
+	return fs
+}
+
+func TestResultsKept(t *testing.T) {
+	s := vf.Begin(t, P, "results-kept")
+	vf.Rapid(s, vf.N(3000, 40000), func(t *rapid.T) keptCase {
+		var c keptCase
+		for i, n := 0, rapid.IntRange(2, 6).Draw(t, "ncalls"); i < n; i++ {
+			k := keptCall{Fn: rapid.SampledFrom([]string{"lm", "lm", "lm", "lmhex", "utf16", "utf16"}).Draw(t, "fn")}
+			if k.Fn == "utf16" {
+				k.In = genPassword(t)
+			} else {
+				k.In = genLMPassword(t)
+			}
+			c.Calls = append(c.Calls, k)
+		}
+		return c
+	}, checkKept, func(c keptCase) bool {
+		// a slice result followed by a call of the same family with another input
+		for i, a := range c.Calls {
+			for _, b := range c.Calls[i+1:] {
+				if a.Fn != "lmhex" && a.In != b.In && (a.Fn == "utf16") == (b.Fn == "utf16") {
+					return true
+				}
+			}
+		}
+		return false
+	})
 }
 
 func dccNontrivial(c pwCase) bool {
